@@ -1038,6 +1038,17 @@ def eval_expr(fn, ref, env, depth=0):
     if ins.op == 'select':
         c = ev(ops[0])
         return None if c is None else ev(ops[1] if c else ops[2])
+    if ins.op == 'call' and (ins.callee or '').startswith(('llvm.ctlz', 'llvm.cttz')):
+        a = ev(ins.args[0])
+        aw = int(ins.ty[1:]) if ins.ty and ins.ty[1:].isdigit() else 32
+        if a is None:
+            return None
+        ua = a & ((1 << aw) - 1)
+        if ua == 0:
+            return aw
+        if ins.callee.startswith('llvm.ctlz'):
+            return aw - ua.bit_length()
+        return (ua & -ua).bit_length() - 1
     if ins.op == 'phi' and len(ins.d['incoming']) == 1:
         return ev(ins.d['incoming'][0][0])
     return None
